@@ -104,7 +104,7 @@ def gen_int(r, k):
             data = bytes([mx | hi]) + b"\xff" * r.choice([1, 5, 19, 20, 21, 40]) + r.choice([b"", b"\x00", b"\x7f"])
             tags.append("long-run")
         elif kind < 0.32:
-            data = bytes([mx | hi]) + b"\x80" * r.choice([0, 1, 18, 19, 20, 21]) + r.choice([b"\x00", b"\x01", b""])
+            data = bytes([mx | hi]) + b"\x80" * r.choice([0, 1, 18, 19, 20, 21, 22, 300, 2500]) + r.choice([b"\x00", b"\x01", b"\x7f", b""])
             tags.append("redundant-zeros")
         elif kind < 0.38:
             data = rand_bytes(r, r.randrange(0, 6))
@@ -406,8 +406,8 @@ def corrupt(r, blk, ctx_before):
     if k == 9:
         return blk + b"\x00\x01a\x02\xc3\x28", "not-utf8-value"
     if k == 10:
-        return blk + b"\xff" + b"\xff" * r.choice([10, 20, 21, 40, 2100]) + b"\x01", "long-integer"
-    return blk + b"\x7f" + b"\x80" * r.choice([5, 20, 21]) + b"\x00\x00", "redundant-name-index"
+        return blk + b"\xff" + r.choice([b"\xff", b"\x80", b"\x81"]) * r.choice([10, 20, 21, 40, 2100, 3000]) + b"\x01", "long-integer"
+    return blk + r.choice([b"\x7f", b"\x0f", b"\x1f"]) + b"\x80" * r.choice([5, 20, 21, 2500]) + r.choice([b"\x00\x00", b"\x01\x00"]), "redundant-name-index"
 
 
 def gen_dec(r, k):
@@ -520,7 +520,7 @@ def gen_bomb(r, k):
 
 # ------------------------------------------------------------------ encoder and encoder->decoder (C01 C03 C09 C10 C15 C19)
 
-def gen_pair(r, k):
+def gen_pair(r, k, shared_pool=None):
     cases = []
     for ci in range(k):
         e, d = "e%d" % ci, "p%d" % ci
@@ -531,7 +531,7 @@ def gen_pair(r, k):
         cmds.append("dnew %s %s" % (d, zs(2 ** 40)))
         if dlimit != 4096:
             cmds.append("dsetmax %s %s" % (d, zs(dlimit)))
-        pool = []
+        pool = shared_pool if shared_pool is not None else []
         cur_size = 4096
         for bi in range(r.choice([1, 2, 3, 4, 6])):
             # table-size changes between blocks
@@ -551,6 +551,11 @@ def gen_pair(r, k):
             fields = []
             for _ in range(r.choice([0, 1, 2, 3, 4, 6, 10])):
                 n, v, s = rand_field(r, pool)
+                if shared_pool is not None and r.random() < 0.7:
+                    # a world of instances talking about the same few fields
+                    n = r.choice([b"x-a", b"x-b", b"x-c", b"x-d", b"cookie", b"etag"])
+                    v = r.choice([b"1", b"2", b""])
+                    s = r.random() < 0.3
                 if r.random() < 0.03:
                     # (Huffman coding of a huge string is quadratic in the extracted model's
                     # unary-bit integers: huge strings travel raw, medium ones either way)
